@@ -230,11 +230,8 @@ def declareFieldIn (ty : TypeName) (info : FormatInfo) (allowEmpty : Bool)
     -- Excel / ODS formats have no separator properties: the defaults apply
     let (ds, ts) : Char × Option Char := if fmt == .excel || fmt == .ods then ('.', none) else (info.decimalSep, info.thousandsSep)
     let valid ← DecimalRange.parse rule (some defaultDecimalRangeText)
-    let _ ← DecimalRange.parse lengthText
-    -- the length is kept as an integer range when it is spelled with integers (C03_decimal_length)
-    let len ← match Range.parse lengthText with
-      | .ok r => pure r
-      | .error _ => .error .unsupported
+    -- the length counts characters: a range of integers (since 6df6362; before, a `DecimalRange`)
+    let len ← Range.parse lengthText
     pure ⟨allowEmpty, len, fixed, allowed, .decimal ds ts valid⟩
   | .datetime => do
     if !isAscii rule then .error .unsupported
